@@ -209,12 +209,12 @@ func AddStandardFilters(fd FilterDictionary) { //nolint: gocyclo
 		if start < 0 {
 			start = len(ss) + start
 		}
-		if start < 0 {
+		if start < 0 || start > len(ss) || n <= 0 {
 			return ""
 		}
-		end := start + n
-		if end > len(ss) {
-			end = len(ss)
+		end := len(ss)
+		if n < end-start {
+			end = start + n
 		}
 		return string(ss[start:end])
 	})
